@@ -42,3 +42,17 @@ func C07PumpPTY(h *Handler, peerID identity.AgentID, streamID uint64, key *crypt
 	ss.PTYSession = pty
 	h.pumpPTYOutput(ss)
 }
+
+// C07StdinSink registers a running session whose stdin is `w` (far end of the shell stdin path:
+// the real HandleStreamData opens each frame and writes STDIN payloads to the process).
+func C07StdinSink(h *Handler, peerID identity.AgentID, streamID uint64, key *crypto.SessionKey, w io.WriteCloser) {
+	ss := c07Stream(h, peerID, streamID, key)
+	ss.Session = &Session{stdin: w, done: make(chan struct{})}
+}
+
+// C07Forget drops the stream entry without touching the session.
+func C07Forget(h *Handler, streamID uint64) {
+	h.mu.Lock()
+	delete(h.streams, streamID)
+	h.mu.Unlock()
+}
